@@ -173,7 +173,13 @@ func init() {
 					}
 					fmt.Fprintf(w, "<response status=\"success\"><result><job><id>17</id><result>%s</result></job></result></response>", res)
 				default:
-					w.WriteHeader(404)
+					if q.Get("type") == "op" {
+						// an operational command the tool does not send today: a device that answers in the affirmative
+						// (e.g. "are there pending changes" on a candidate configuration that somebody else has edited)
+						fmt.Fprint(w, "<response status=\"success\"><result>yes</result></response>")
+					} else {
+						w.WriteHeader(404)
+					}
 				}
 				return
 			}
